@@ -449,13 +449,144 @@ func (sl *Sel) Do() int {
 }
 
 // Len is len(ch) for a channel: the number of values buffered in the model.
-func Len[C ~chan T | ~<-chan T | ~chan<- T, T any](ch C) int {
+func Len(ch interface{}) int {
 	s := cur
+	v := reflect.ValueOf(ch)
 	if s == nil {
-		return reflect.ValueOf(ch).Len()
+		return v.Len()
 	}
-	if cs, ok := s.chans[chanKey(ch)]; ok {
+	if v.IsNil() {
+		return 0
+	}
+	if cs, ok := s.chans[v.Pointer()]; ok {
 		return len(cs.buf)
 	}
 	return 0
 }
+
+// ---- timers (time.NewTimer, time.AfterFunc, time.NewTicker, time.Tick) ----
+
+// Timer is time.Timer on the virtual clock.
+type Timer struct {
+	C    chan time.Time
+	real *time.Timer
+	fn   func()
+	dead bool
+}
+
+// NewTimer is time.NewTimer.
+func NewTimer(d time.Duration) *Timer {
+	if cur == nil {
+		rt := time.NewTimer(d)
+		t := &Timer{C: make(chan time.Time, 1), real: rt}
+		go func() {
+			v, ok := <-rt.C
+			if ok {
+				t.C <- v
+			}
+		}()
+		return t
+	}
+	return &Timer{C: After(d)}
+}
+
+// Stop is (*time.Timer).Stop.
+func (t *Timer) Stop() bool {
+	s := cur
+	if s == nil {
+		if t.real != nil {
+			return t.real.Stop()
+		}
+		return false
+	}
+	if t.fn != nil {
+		was := !t.dead
+		t.dead = true
+		return was
+	}
+	if cs, ok := s.chans[chanKey(t.C)]; ok {
+		was := !cs.fired
+		cs.fired = true // never delivers from now on
+		return was
+	}
+	return false
+}
+
+// Reset is (*time.Timer).Reset.
+func (t *Timer) Reset(d time.Duration) bool {
+	s := cur
+	if s == nil {
+		if t.real != nil {
+			return t.real.Reset(d)
+		}
+		return false
+	}
+	if cs, ok := s.chans[chanKey(t.C)]; ok {
+		was := !cs.fired
+		cs.fired, cs.wake = false, s.now.Add(d)
+		return was
+	}
+	return false
+}
+
+// AfterFunc is time.AfterFunc: f runs in its own thread at some later step.
+func AfterFunc(d time.Duration, f func()) *Timer {
+	if cur == nil {
+		return &Timer{real: time.AfterFunc(d, f)}
+	}
+	t := &Timer{fn: f}
+	GoLow("time.AfterFunc", func() {
+		Sleep(d)
+		if !t.dead {
+			t.dead = true
+			f()
+		}
+	})
+	return t
+}
+
+// Ticker is time.Ticker on the virtual clock: a tick is available at every
+// step (time may pass arbitrarily fast); each tick advances the clock by the period.
+type Ticker struct {
+	C    chan time.Time
+	real *time.Ticker
+}
+
+// NewTicker is time.NewTicker.
+func NewTicker(d time.Duration) *Ticker {
+	s := cur
+	if s == nil {
+		rt := time.NewTicker(d)
+		t := &Ticker{C: make(chan time.Time, 1), real: rt}
+		go func() {
+			for v := range rt.C {
+				select {
+				case t.C <- v:
+				default:
+				}
+			}
+		}()
+		return t
+	}
+	t := &Ticker{C: make(chan time.Time, 1)}
+	cs := s.chanOf(chanKey(t.C), 1, t.C)
+	cs.timer, cs.ticker, cs.period, cs.wake = true, true, d, s.now.Add(d)
+	return t
+}
+
+// Stop is (*time.Ticker).Stop.
+func (t *Ticker) Stop() {
+	s := cur
+	if s == nil {
+		if t.real != nil {
+			t.real.Stop()
+		}
+		return
+	}
+	if cs, ok := s.chans[chanKey(t.C)]; ok {
+		cs.fired, cs.ticker = true, false
+	}
+}
+
+// Tick is time.Tick.
+func Tick(d time.Duration) chan time.Time { return NewTicker(d).C }
